@@ -169,6 +169,11 @@ def _get_natural_f(knots: numpy.ndarray) -> numpy.ndarray:
     """
     from scipy import linalg
 
+    if knots.size == 2:
+        # No interior knots: the natural spline is the straight line through
+        # the two boundary knots, and all second derivatives vanish.
+        return numpy.zeros((2, 2))
+
     h = knots[1:] - knots[:-1]
     diag = (h[:-1] + h[1:]) / 3.0
     ul_diag = h[1:-1] / 6.0
